@@ -469,9 +469,9 @@ def h_split(ctx, n):
 # ---------------------------------------------------------------------------
 # C16: tabulated (numba) planner vs memoised planner
 
-def h_numba_table(ctx, n):
+def h_numba_table(ctx, n, smax=None):
     from checkpoint_schedules import mixed
-    s = ctx.int("s", min(1, n - 1), n + 1)
+    s = ctx.int("s", min(1, n - 1), n + 1 if smax is None else smax)
     try:
         tab = mixed.mixed_steps_tabulation(n, s)
     except PathAbort:
@@ -513,9 +513,9 @@ def _mixed_stream(n, s, storage, force_numba):
         m.numba = old
 
 
-def h_numba_stream(ctx, n):
+def h_numba_stream(ctx, n, smax=None):
     silence_repo_output()
-    s = ctx.int("s", min(1, n - 1), None)
+    s = ctx.int("s", min(1, n - 1), smax)
     storage = ctx.choice("storage", ["RAM", "DISK"])
     res = {}
     for force in (False, True):
